@@ -586,3 +586,71 @@ package raft
 //@   at call (*verifyFuture).vote#1 assert deregistered_before_vote: forall w *verifyFuture :: !dom(s.notify, w)
 //@   loop 1 invariant emptied: (forall w *verifyFuture :: !dom(s.notify, w)) && s.notify != nil && s.notify != old(s.notify) && isfresh(s.notify)
 //@   loop 1 invariant bounded: forall j int :: #i <= j && j < #card ==> #key(j) != nil && #key(j).votes < MaxInt63
+
+// ---------------------------------------------------------------------------
+// C18: leadership notifications (function-level slivers)
+
+//@ func overrideNotifyBool
+//@   requires nonnil: ch != nil
+//@   modifies sent(ch)
+//@   ensures  holds_latest: lastsent(ch) == v
+//@   ensures  one_message: sent(ch) == old(sent(ch)) + 1
+
+//@ func (r *Raft) setState
+//@   requires nonnil: r != nil
+//@   modifies r.leaderAddr, r.leaderID, r.state
+//@   ensures  clears_leader: r.leaderAddr == "" && r.leaderID == ""
+//@   ensures  state_set: r.state == state
+//@   ensures  term_and_log_untouched: r.currentTerm == old(r.currentTerm) && r.lastLogIndex == old(r.lastLogIndex) && r.commitIndex == old(r.commitIndex)
+
+//@ func (r *Raft) setLeader
+//@   requires nonnil: r != nil
+//@   modifies r.leaderAddr, r.leaderID
+//@   ensures  set: r.leaderAddr == leaderAddr && r.leaderID == leaderID
+//@   ensures  role_untouched: r.state == old(r.state) && r.currentTerm == old(r.currentTerm)
+
+// ---------------------------------------------------------------------------
+// Snapshot stores: ghost durability flag and assumed contracts (trusted base)
+
+//@ ghostvar snapDurable map[uint64]bool
+//@ model SnapshotSink { index uint64; term uint64 }
+
+//@ interface SnapshotStore.Create(version, index, term, configuration, configurationIndex, trans)
+//@   modifies nothing
+//@   fresh result0
+//@   ensures  sink: result1 == nil ==> result0 != nil && result0.index == index && result0.term == term
+
+//@ interface SnapshotSink.Close()
+//@   modifies snapDurable
+//@   ensures  durable: result == nil ==> snapDurable[this.index] && (forall i uint64 :: i != this.index ==> snapDurable[i] == old(snapDurable[i]))
+//@   ensures  failed:  result != nil ==> snapDurable == old(snapDurable)
+
+//@ interface SnapshotSink.Cancel()
+//@   modifies nothing
+
+//@ interface SnapshotSink.ID()
+//@   modifies nothing
+
+//@ interface SnapshotSink.Write(p)
+//@   modifies nothing
+
+// ---------------------------------------------------------------------------
+// C20: user restore
+
+//@ func (r *Raft) restoreUserSnapshot
+//@   requires nonnil: r != nil && meta != nil && r.snapshots != nil && r.logs != nil && r.logger != nil && r.leaderState.inflight != nil
+//@   requires index_range: meta.Index < MaxInt63 && r.lastLogIndex < MaxInt63 && r.lastSnapshotIndex < MaxInt63
+//@   ensures  refused_if_uncommitted_config: old(r.configurations.committedIndex) != old(r.configurations.latestIndex) ==> result != nil &&
+//@              r.lastLogIndex == old(r.lastLogIndex) && r.lastLogTerm == old(r.lastLogTerm) && r.lastApplied == old(r.lastApplied) &&
+//@              r.lastSnapshotIndex == old(r.lastSnapshotIndex) && snapDurable == old(snapDurable) && sent(r.fsmMutateCh) == old(sent(r.fsmMutateCh))
+//@   ensures  index_above_everything: result == nil ==> r.lastLogIndex == max(meta.Index, max(old(r.lastLogIndex), old(r.lastSnapshotIndex))) + 1 &&
+//@              r.lastApplied == r.lastLogIndex && r.lastSnapshotIndex == r.lastLogIndex &&
+//@              r.lastLogTerm == r.currentTerm && r.lastSnapshotTerm == r.currentTerm
+//@   ensures  durable_before_publish: r.lastSnapshotIndex != old(r.lastSnapshotIndex) ==> snapDurable[r.lastSnapshotIndex]
+//@   ensures  durable_before_restore: sent(r.fsmMutateCh) != old(sent(r.fsmMutateCh)) ==> snapDurable[max(meta.Index, max(old(r.lastLogIndex), old(r.lastSnapshotIndex))) + 1]
+//@   ensures  error_leaves_cached_tail: result != nil ==> r.lastLogIndex == old(r.lastLogIndex) && r.lastApplied == old(r.lastApplied) && r.lastSnapshotIndex == old(r.lastSnapshotIndex)
+//@   ensures  term_untouched: r.currentTerm == old(r.currentTerm) && r.state == old(r.state)
+//@   loop 1 invariant untouched: r.lastLogIndex == old(r.lastLogIndex) && r.lastLogTerm == old(r.lastLogTerm) && r.lastApplied == old(r.lastApplied) &&
+//@              r.lastSnapshotIndex == old(r.lastSnapshotIndex) && r.lastSnapshotTerm == old(r.lastSnapshotTerm) && r.currentTerm == old(r.currentTerm) && r.state == old(r.state) &&
+//@              snapDurable == old(snapDurable) && sent(r.fsmMutateCh) == old(sent(r.fsmMutateCh)) && r.leaderState.inflight != nil &&
+//@              r.configurations.committedIndex == old(r.configurations.committedIndex) && r.configurations.latestIndex == old(r.configurations.latestIndex) && r.snapshots == old(r.snapshots) && r.snapshots != nil
